@@ -1245,5 +1245,12 @@ func TestVerifBoundedC12(t *testing.T) {
 		"nontrivial_rule": "blocks in which a probe callback was handed a printer object last seen by a callback of ANOTHER goroutine (the pool really moved printers between goroutines)",
 		"bound":           fmt.Sprintf("%d configurations (goroutines x GOMAXPROCS x with/without runtime.Gosched() inside formatting callbacks), goroutines in {2..16}, random histories of 0..3 calls then 2 rounds of all probes, seed %d; schedules are those the Go scheduler produced (sampled, not enumerated); data races proper need `go test -race`", len(confs), seed),
 		"exhaustive":      false})
+	failsBefore = s.fails
+	sh := vSharedStorage(16, func(call, out, why string) { atomic.AddInt32(&s.fails, 1); vFail(s.t, "C12", call, out, why) })
+	c12Bounded(map[string]interface{}{
+		"law":   "an operand shared by concurrent print calls is only read: 16 goroutines printing / reading the same StringBuilder value store nothing into its backing array (deterministic witness of the data race the race detector would report), and a use of an earlier by-value copy does not change what the builder returns later",
+		"cases": sh.Cases, "nontrivial": sh.Nontrivial, "nontrivial_rule": "an envelope is open when the copy is finalized, or the original is written to after the copy was taken",
+		"bound":      "6 first payloads x 7 fill levels of the 64-byte array x {unsafe, safe} x 6 uses, each from 16 goroutines at once",
+		"exhaustive": s.fails == failsBefore})
 	_ = e
 }
